@@ -12,3 +12,4 @@ import PasskeyVerif.Props.C02
 import PasskeyVerif.Props.C03
 import PasskeyVerif.Props.C09
 import PasskeyVerif.Props.C07
+import PasskeyVerif.Props.C06
